@@ -299,3 +299,36 @@ Example C20_slow_example :
   @delaunay2d_slow Num.QInst.QOps [p 0 0; p 4 0; p 0 3; p 5 5; p 2 1]%Z
   = Some [(0, 4, 1); (0, 2, 4); (1, 4, 3); (2, 3, 4)]%nat.
 Proof. vm_compute. reflexivity. Qed.
+
+(* ---------------------------------------------------------------- syntactic tie to the Go source
+   Generated/RenderExpr.v is re-translated from the Go AST of the current source tree on every run
+   (harness/rendergen); Algo/GenEqDelaunay.v prove the generated definitions equal to the model the
+   theorems above are about, for all arguments over an arbitrary Ops (all of them: Props/TRANSLR.v).
+   Each theorem below breaks when the Go function it is named after changes what it computes. *)
+From Coq Require Import ZArith List.
+From Sdfx Require Num.Ops Geo.Vec Render.RgLib Algo.Canon Algo.Delaunay Generated.RenderExpr Algo.GenEqDelaunay.
+Import Num.Ops Geo.Vec.
+
+Theorem C20_TRANSL_Less : forall (a : list (Z * Z * Z)) (i j : Z),
+    RenderExpr.rg_render_TriangleIByIndex_Less a i j = Canon.less (RgLib.znth i a (0, 0, 0)%Z) (RgLib.znth j a (0, 0, 0)%Z).
+Proof. exact (@GenEqDelaunay.Less_eq). Qed.
+Print Assumptions C20_TRANSL_Less.
+
+Theorem C20_TRANSL_Canonical : forall (t : Canon.tri), RenderExpr.rg_render_TriangleI_Canonical t = Canon.canon t.
+Proof. exact (@GenEqDelaunay.Canonical_eq). Qed.
+Print Assumptions C20_TRANSL_Canonical.
+
+Theorem C20_TRANSL_Circumcenter : forall (O : Ops) (p1 p2 p3 : V2 O),
+    RenderExpr.rg_sdf_Triangle2_Circumcenter (p1, p2, p3) = Delaunay.circumcenter p1 p2 p3.
+Proof. exact (@GenEqDelaunay.Circumcenter_eq). Qed.
+Print Assumptions C20_TRANSL_Circumcenter.
+
+Theorem C20_TRANSL_InCircumcircle : forall (O : Ops) (p1 p2 p3 p : V2 O),
+    RenderExpr.rg_sdf_Triangle2_InCircumcircle (p1, p2, p3) p = Delaunay.in_circumcircle p1 p2 p3 p.
+Proof. exact (@GenEqDelaunay.InCircumcircle_eq). Qed.
+Print Assumptions C20_TRANSL_InCircumcircle.
+
+Theorem C20_TRANSL_superTriangle : forall (O : Ops) (vs : list (V2 O)), (2 <= length vs)%nat ->
+    RenderExpr.rg_render_superTriangle vs = Some (Delaunay.super_triangle vs).
+Proof. exact (@GenEqDelaunay.superTriangle_eq). Qed.
+Print Assumptions C20_TRANSL_superTriangle.
